@@ -530,17 +530,34 @@ impl SubCheck for Misc {
         let (e2, _) = build_events(&init, &HistCase { kind: 0, ..h2.clone() });
         let mut l1 = LinearizabilityTester::<u8, Register<u8>>::new(init.clone());
         let mut l2 = l1.clone();
-        feed::<Register<u8>, _>(&mut l1, &e1, false);
+        let l1_well_formed = feed::<Register<u8>, _>(&mut l1, &e1, false).iter().all(|ok| *ok);
         feed::<Register<u8>, _>(&mut l2, &e2, c.same_history);
         law(&l1, &l2, l1 == l2, "linearizability-tester")?;
+        // near miss: the same recorded operations, but one tester has been poisoned by an
+        // ill-formed event (a return on a thread that never invoked anything)
+        {
+            use stateright::semantics::register::RegisterRet;
+            use stateright::semantics::ConsistencyTester;
+            let mut l3 = l1.clone();
+            let _ = l3.on_return(200u8, RegisterRet::WriteOk);
+            law(&l1, &l3, !l1_well_formed, "linearizability-tester-poisoned-twin")?;
+            cov.label_if(l1_well_formed, "tester_and_its_poisoned_twin");
+        }
         if c.same_history && e1 == e2 {
             ensure!(l1 == l2, "c04/linearizability-tester/same-history-unequal", "two testers fed the same events (one through on_invret) differ: {:?} vs {:?}", l1, l2);
         }
         let mut s1 = SequentialConsistencyTester::<u8, Register<u8>>::new(init.clone());
         let mut s2 = s1.clone();
-        feed::<Register<u8>, _>(&mut s1, &e1, false);
+        let s1_well_formed = feed::<Register<u8>, _>(&mut s1, &e1, false).iter().all(|ok| *ok);
         feed::<Register<u8>, _>(&mut s2, &e2, c.same_history);
         law(&s1, &s2, s1 == s2, "sequential-consistency-tester")?;
+        {
+            use stateright::semantics::register::RegisterRet;
+            use stateright::semantics::ConsistencyTester;
+            let mut s3 = s1.clone();
+            let _ = s3.on_return(200u8, RegisterRet::WriteOk);
+            law(&s1, &s3, !s1_well_formed, "sequential-consistency-tester-poisoned-twin")?;
+        }
         cov.label(if l1 == l2 { "testers_equal" } else { "testers_differ" });
         cov.nontrivial(c);
         if cov.wants_sample() {
@@ -549,7 +566,7 @@ impl SubCheck for Misc {
         Ok(())
     }
     fn mandatory(&self) -> Vec<&'static str> {
-        vec!["trailing_zero", "testers_equal", "testers_differ", "adjacent_collections_split_differently"]
+        vec!["trailing_zero", "testers_equal", "testers_differ", "adjacent_collections_split_differently", "tester_and_its_poisoned_twin"]
     }
 }
 
